@@ -219,7 +219,7 @@ CLAIMED = {
         "implementation's query log, cache on and off. Search: endpoint run (cache on / off) vs local run of the same graph on an in-process "
         "SPARQL evaluator substituted for the HTTP client; class targets, all classes, shape maps, inverse paths, instances_cap.",
    note="Partial: the SPARQL JSON result reader (keeps no datatype), HTTP and retries are runtime behaviour outside the model; the fake endpoint "
-        "replaces only the HTTP call. Findings F-C15-1 (same local name), F-C02-2 / F-C09-1 (order-dependent ties). Two defects repaired.",
+        "replaces only the HTTP call. Findings F-C02-2 / F-C09-1 (order-dependent ties), F-C05-1 (duplicate labels). Two defects repaired.",
    technique="Lean 4 proof (cache refinement with invariant; neighbourhood sufficiency via permutation invariance) + query-log correspondence + endpoint-vs-local search",
    design="5/C15"),
 }
